@@ -234,6 +234,13 @@ OptimizeLaws ==
   /\ \A i \in 1..(Len(o) - 1) : OffAt(o, i + 1) = EndAt(o, i)
 OptimizeRNeverGrows ==
   LET sh == Shapes(s) IN ShSize(Optimize(Leaves(s))) <= ShSize(sh)
+\* ... nor when a struct's tail byte travels with its trailing zero-size field (tolerated attribution)
+OptimizeAltNeverGrows ==
+  LET sh == Shapes(s)
+      ta == SelectSeq(TopAlt(s), LAMBDA e : ~e.pad)
+      la == SelectSeq(ReportAlt(s), LAMBDA e : ~e.pad)
+  IN /\ ShSize(Optimize([i \in 1..Len(ta) |-> [sz |-> ta[i].size, al |-> ta[i].align]])) <= ShSize(sh)
+     /\ ShSize(Optimize([i \in 1..Len(la) |-> [sz |-> la[i].size, al |-> la[i].align]])) <= ShSize(sh)
 
 \* appending a field never moves an existing field and never shrinks the struct
 AppendStable ==
@@ -271,5 +278,10 @@ Emit ==
       alt     |-> ReportAlt(s),
       altfsz  |-> LET ta == SelectSeq(TopAlt(s), LAMBDA e : ~e.pad) IN [i \in 1..Len(s) |-> ta[i].size],
       optsize |-> ShSize(o),
-      roptsize |-> ShSize(Optimize(Leaves(s))) ]))
+      roptsize |-> ShSize(Optimize(Leaves(s))),
+      \* the same for the shapes structlayout hands to optimize under the tolerated attribution
+      altoptsize  |-> LET ta == SelectSeq(TopAlt(s), LAMBDA e : ~e.pad)
+                      IN ShSize(Optimize([i \in 1..Len(ta) |-> [sz |-> ta[i].size, al |-> ta[i].align]])),
+      altroptsize |-> LET la == SelectSeq(ReportAlt(s), LAMBDA e : ~e.pad)
+                      IN ShSize(Optimize([i \in 1..Len(la) |-> [sz |-> la[i].size, al |-> la[i].align]])) ]))
 =============================================================================
